@@ -657,6 +657,265 @@ def b14(ctx, orc):
     return fails
 
 
+# -- C11 ---------------------------------------------------------------------------------------------------
+
+def expected_summary(orc):
+    ext = orc.extents()
+    dorder = sorted(ext, key=orc.longlex)
+    atoms = orc.upper_covers(orc.bottom())
+    out = []
+    for k, e in enumerate(ext):
+        out.append((orc.olabels(e), orc.plabels(orc.intent(e)), k, dorder.index(e),
+                    [orc.olabels(u) for u in orc.upper_covers(e)], [orc.olabels(l) for l in orc.lower_covers(e)],
+                    orc.object_labels(e), orc.property_labels(e), sorted(orc.olabels(a) for a in atoms if a & e == a)))
+    return out
+
+
+def lattice_summary(lat):
+    return [(tuple(c.extent), tuple(c.intent), c.index, c.dindex, [tuple(u.extent) for u in c.upper_neighbors],
+             [tuple(l.extent) for l in c.lower_neighbors], tuple(c.objects), tuple(c.properties),
+             sorted(tuple(a.extent) for a in c.atoms)) for c in lat]
+
+
+def expected_dict(orc):
+    ext = orc.extents()
+    idx = {e: k for k, e in enumerate(ext)}
+    return {'objects': orc.objects, 'properties': orc.properties,
+            'context': [tuple(j for j in range(orc.m) if orc.table[i][j]) for i in range(orc.n)],
+            'lattice': [(bits(e), bits(orc.intent(e)), tuple(idx[u] for u in orc.upper_covers(e)),
+                         tuple(idx[l] for l in orc.lower_covers(e))) for e in ext]}
+
+
+def _norm(d):
+    out = {'objects': tuple(d['objects']), 'properties': tuple(d['properties']),
+           'context': [tuple(int(i) for i in r) for r in d['context']]}
+    if 'lattice' in d:
+        out['lattice'] = [tuple(tuple(int(i) for i in part) for part in item) for item in d['lattice']]
+    return out
+
+
+def _perms(k, rnd_stride=1):
+    if k <= 5:
+        return list(itertools.permutations(range(k)))
+    ident = list(range(k))
+    out = [tuple(reversed(ident)), tuple(ident[1:] + ident[:1])]
+    for i in range(k - 1):
+        p = list(ident)
+        p[i], p[i + 1] = p[i + 1], p[i]
+        out.append(tuple(p))
+    return out
+
+
+def b11(ctx, orc, light=False):
+    import concepts
+    import io
+    import json
+    import os
+    import tempfile
+    C = concepts.Context
+    fails = []
+    want = expected_dict(orc)
+    summary = expected_summary(orc)
+    fresh = C(orc.objects, orc.properties, orc.table)
+    lazy = _norm(fresh.todict(ignore_lattice=None))
+    if 'lattice' in lazy or lazy != {k: v for k, v in _norm(want).items() if k != 'lattice'}:
+        fails.append(f'todict(ignore_lattice=None) before the lattice exists: {lazy!r}')
+    d = ctx.todict()
+    if _norm(d) != _norm(want):
+        fails.append(f'todict() = {_norm(d)!r}, expected the documented encoding {_norm(want)!r}')
+    d0 = ctx.todict(ignore_lattice=True)
+    if 'lattice' in d0 or _norm(d0) != {k: v for k, v in _norm(want).items() if k != 'lattice'}:
+        fails.append(f'todict(ignore_lattice=True) = {d0!r}')
+    if _norm(ctx.todict(ignore_lattice=None)) != _norm(want):
+        fails.append('todict(ignore_lattice=None) with a present lattice omits or changes it')
+
+    def check_loaded(c2, how, stored=True, full=False):
+        if not (c2 == fresh) or c2 != fresh:
+            fails.append(f'{how}: reloaded context differs')
+            return
+        if stored != ('lattice' in c2.__dict__):
+            fails.append(f'{how}: stored lattice {"missing" if stored else "unexpectedly present"}')
+        if lattice_summary(c2.lattice) != summary:
+            fails.append(f'{how}: lattice differs from the recomputed one: {lattice_summary(c2.lattice)!r} != {summary!r}')
+        if _norm(c2.todict()) != _norm(want):
+            fails.append(f'{how}: todict() of the reloaded context differs')
+        if full and not fails:
+            for bat in (b02, b03, b05, b06, b07, b09, b10, b18, b20):
+                for f in bat(c2, orc)[:2]:
+                    fails.append(f'{how}: stored lattice answers differently: {f}')
+
+    check_loaded(C.fromdict(d), 'fromdict(todict())', full=not light)
+    check_loaded(C.fromdict(d, raw=True), 'fromdict(todict(), raw=True)')
+    check_loaded(C.fromdict(d, ignore_lattice=True), 'fromdict(ignore_lattice=True)', stored=False)
+    check_loaded(C.fromdict(d, require_lattice=True), 'fromdict(require_lattice=True)')
+    check_loaded(C.fromdict(d0), 'fromdict(todict(ignore_lattice=True))', stored=False)
+    try:
+        C.fromdict(d0, require_lattice=True)
+        fails.append('fromdict(require_lattice=True) accepted a dict without lattice')
+    except ValueError:
+        pass
+    # json: text and file object, path
+    buf = io.StringIO()
+    ctx.tojson(buf)
+    text = buf.getvalue()
+    if _norm(json.loads(text)) != _norm(want):
+        fails.append('tojson text is not the documented encoding')
+    check_loaded(C.fromjson(io.StringIO(text)), 'fromjson(file object)', full=not light)
+    buf = io.StringIO()
+    ctx.tojson(buf, ignore_lattice=True, indent=2, sort_keys=False)
+    check_loaded(C.fromjson(io.StringIO(buf.getvalue())), 'fromjson(ignore_lattice dump)', stored=False)
+    tmp = tempfile.mkdtemp(prefix='verif-c11-')
+    try:
+        pth = os.path.join(tmp, 'c.json')
+        ctx.tojson(pth)
+        check_loaded(C.fromjson(pth), 'fromjson(path)')
+        check_loaded(C.fromjson(pth, raw=True), 'fromjson(path, raw=True)')
+        check_loaded(C.fromjson(pth, ignore_lattice=True), 'fromjson(path, ignore_lattice=True)', stored=False)
+        # python-literal string and file
+        lit = ctx.tostring(frmat='python-literal')
+        check_loaded(C.fromstring(lit, frmat='python-literal'), 'fromstring(python-literal)', full=not light)
+        lit0 = fresh.tostring(frmat='python-literal')
+        check_loaded(C.fromstring(lit0, frmat='python-literal'), 'fromstring(python-literal without lattice)', stored=False)
+        pth2 = os.path.join(tmp, 'c.py')
+        ctx.tofile(pth2, frmat='python-literal')
+        check_loaded(C.fromfile(pth2, frmat='python-literal'), 'fromfile(python-literal)')
+    finally:
+        import shutil
+        shutil.rmtree(tmp, ignore_errors=True)
+    # raw=True under permutations of the stored sequences
+    L = _norm(want)['lattice']
+    k = len(L)
+    for pi in _perms(k):
+        newl = [None] * k
+        for old, item in enumerate(L):
+            e, i, up, lo = item
+            newl[pi[old]] = (tuple(reversed(e)), tuple(reversed(i)), tuple(reversed([pi[u] for u in up])),
+                             tuple(reversed([pi[x] for x in lo])))
+        d2 = dict(d, lattice=newl)
+        try:
+            c3 = C.fromdict(d2, raw=True)
+        except Exception as e:
+            fails.append(f'fromdict(raw=True) with stored order {pi}: {type(e).__name__}: {e}')
+            break
+        if lattice_summary(c3.lattice) != summary or _norm(c3.todict()) != _norm(want):
+            fails.append(f'fromdict(raw=True) with stored order {pi}: lattice differs: {lattice_summary(c3.lattice)!r}')
+            break
+    return fails
+
+
+# -- C15 ---------------------------------------------------------------------------------------------------
+
+_SYMMETRIC = {'equivalent', 'complement', 'incompatible', 'subcontrary', 'orthogonal'}
+
+
+def label_structure(ctx):
+    """everything C15 talks about, as statements about labels (independent of row/column positions)"""
+    lat = ctx.lattice
+    cs = list(lat)
+    key = lambda c: (frozenset(c.extent), frozenset(c.intent))
+    concepts_ = frozenset(key(c) for c in cs)
+    covers = frozenset((key(c), key(u)) for c in cs for u in c.upper_neighbors)
+    lower = frozenset((key(l), key(c)) for c in cs for l in c.lower_neighbors)
+    joins = {(key(a), key(b)): key(a | b) for a in cs for b in cs}
+    meets = {(key(a), key(b)): key(a & b) for a in cs for b in cs}
+    rels = frozenset((r.kind, frozenset((r.left, r.right))) if r.kind in _SYMMETRIC else (r.kind, r.left, r.right)
+                     for r in ctx.relations())
+    return {'concepts': concepts_, 'covers': covers, 'covers_from_lower': lower, 'joins': joins, 'meets': meets,
+            'relations': rels, 'count': len(cs)}
+
+
+def _perm_list(k):
+    if k <= 3:
+        return list(itertools.permutations(range(k)))
+    ident = list(range(k))
+    out = [tuple(ident), tuple(reversed(ident)), tuple(ident[1:] + ident[:1])]
+    for i in range(k - 1):
+        p = list(ident)
+        p[i], p[i + 1] = p[i + 1], p[i]
+        out.append(tuple(p))
+    return out
+
+
+def b15(ctx, orc):
+    import concepts
+    C = concepts.Context
+    fails = []
+    base = label_structure(ctx)
+    if base['covers'] != base['covers_from_lower']:
+        fails.append('upper and lower neighbor links disagree')
+    n, m = orc.n, orc.m
+    for rp in _perm_list(n):
+        for cp in _perm_list(m):
+            if rp == tuple(range(n)) and cp == tuple(range(m)):
+                continue
+            objs = [orc.objects[i] for i in rp]
+            props = [orc.properties[j] for j in cp]
+            table = [tuple(orc.table[i][j] for j in cp) for i in rp]
+            st = label_structure(C(objs, props, table))
+            for k in ('concepts', 'covers', 'joins', 'meets', 'relations', 'count'):
+                if st[k] != base[k]:
+                    fails.append(f'rows permuted {rp}, columns permuted {cp}: {k} changed as statements about labels')
+                    break
+        if len(fails) > 5:
+            return fails
+    # transposition: exactly the dual lattice
+    tr = C(orc.properties, orc.objects, [tuple(orc.table[i][j] for i in range(n)) for j in range(m)])
+    st = label_structure(tr)
+    swap = lambda k: (k[1], k[0])
+    if st['concepts'] != frozenset(swap(k) for k in base['concepts']):
+        fails.append('transposed: concepts are not the swapped concepts')
+    if st['covers'] != frozenset((swap(u), swap(c)) for c, u in base['covers']):
+        fails.append('transposed: covering relation is not reversed')
+    if st['joins'] != {(swap(a), swap(b)): swap(v) for (a, b), v in base['meets'].items()} or \
+            st['meets'] != {(swap(a), swap(b)): swap(v) for (a, b), v in base['joins'].items()}:
+        fails.append('transposed: join and meet are not exchanged')
+    tl = [c for c in tr.lattice]
+    bl = [c for c in ctx.lattice]
+    if len(tl) != len(bl):
+        fails.append('transposed: number of concepts differs')
+    # duplicated row / duplicated column / full column
+    intents = frozenset(k[1] for k in base['concepts'])
+    extents = frozenset(k[0] for k in base['concepts'])
+    for i in range(n):
+        for pos in {0, i + 1, n}:
+            objs = list(orc.objects)
+            table = [tuple(r) for r in orc.table]
+            objs.insert(pos, 'copy_of_' + orc.objects[i])
+            table.insert(pos, tuple(orc.table[i]))
+            st = label_structure(C(objs, orc.properties, table))
+            if frozenset(k[1] for k in st['concepts']) != intents or st['count'] != base['count']:
+                fails.append(f'copy of row {i} inserted at {pos}: family of intents / number of concepts changed')
+    for j in range(m):
+        for pos in {0, j + 1, m}:
+            props = list(orc.properties)
+            props.insert(pos, 'copy_of_' + orc.properties[j])
+            table = [list(r) for r in orc.table]
+            for i in range(n):
+                table[i].insert(pos, orc.table[i][j])
+            st = label_structure(C(orc.objects, props, [tuple(r) for r in table]))
+            if frozenset(k[0] for k in st['concepts']) != extents or st['count'] != base['count']:
+                fails.append(f'copy of column {j} inserted at {pos}: family of extents / number of concepts changed')
+    for pos in {0, m}:
+        props = list(orc.properties)
+        props.insert(pos, 'full_column')
+        table = [list(r) for r in orc.table]
+        for i in range(n):
+            table[i].insert(pos, True)
+        st = label_structure(C(orc.objects, props, [tuple(r) for r in table]))
+        if frozenset(k[0] for k in st['concepts']) != extents or st['count'] != base['count']:
+            fails.append(f'full column inserted at {pos}: family of extents / number of concepts changed')
+    # the FCbO generators see the same invariances (sets of concepts)
+    from concepts import algorithms
+    for gen_ in (algorithms.fast_generate_from, algorithms.fcbo_dual):
+        got = frozenset((frozenset(e.members()), frozenset(i.members())) for e, i in gen_(ctx))
+        if got != base['concepts']:
+            fails.append(f'{gen_.__name__} disagrees with the lattice on this table')
+        got = frozenset((frozenset(i.members()), frozenset(e.members())) for e, i in gen_(tr))
+        if got != base['concepts']:
+            fails.append(f'{gen_.__name__} on the transposed table is not the dual')
+    return fails
+
+
 def make(concepts, case):
     """(context, oracle) for a replay case with objects/properties/table"""
     ctx = concepts.Context(case['objects'], case['properties'], [tuple(r) for r in case['table']])
